@@ -12,7 +12,7 @@ from .program import short, unparse
 
 ELEMENTARY = {"sinh", "cosh", "tanh", "exp", "sin", "cos", "tan", "log", "arcsin", "arctan"}
 IDENTITY_CALLS = {
-    "np.asarray", "np.array", "np.ascontiguousarray", "float", "np.float32", "np.float64", "np.squeeze",
+    "np.asarray", "np.array", "sorted", "list", "tuple", "np.sort", "np.ascontiguousarray", "float", "np.float32", "np.float64", "np.squeeze",
     ".copy", ".ravel", ".reshape", ".flatten", ".squeeze", ".astype:float", ".item", "np.atleast_1d",
 }
 
@@ -190,6 +190,8 @@ class NFDomain(Domain):
         if fname == "np.linspace" and len(args) >= 3:
             a, b, m = n(args[0]), n(args[1]), n(args[2])
             return a + (b - a) * NF.atom("#n") / (m - 1)
+        if fname == "np.diff" and len(args) == 1:
+            return NF.atom(f"diff({n(args[0]).canon()})")
         if fname == "np.add" and len(args) == 2:
             return n(args[0]) + n(args[1])
         if fname == "np.multiply" and len(args) >= 2:
